@@ -13,6 +13,26 @@ def classify_err(e):
         return e[1]
     return None
 
+def gen_nested_text(r):
+    """a deep, well-nested bracket text (same-kind runs, tokens around it) with at most one local perturbation"""
+    def nest(d):
+        if d <= 0 or r.chance(1, 5):
+            return [r.choice(['a', 'a', 'comma', 'sp'])] * r.below(3)
+        k = r.below(3)
+        run = 1 + (r.below(4) if r.chance(1, 3) else 0)       # k k k ... of the same kind
+        body = nest(d - 1)
+        for _ in range(r.below(2)):
+            body = body + nest(d - 1)
+        return [SYMS[PAIRS[k][0]]] * run + body + [SYMS[PAIRS[k][1]]] * run
+    t = r.choice([[], ['a'], ['sp'], ['b', 'sp']]) + nest(3 + r.below(5)) + r.choice([[], ['a'], ['sp', 'a'], ['comma']]) + (nest(2) if r.chance(1, 3) else [])
+    if r.chance(1, 3) and t:
+        j = r.below(len(t))
+        c = r.below(3)
+        if c == 0: t = t[:j] + t[j + 1:]                                         # drop one token (often a bracket)
+        elif c == 1: t = t[:j] + [SYMS[PAIRS[r.below(3)][r.below(2)]]] + t[j:]    # insert a stray bracket
+        else: t = t[:j] + [SYMS[PAIRS[r.below(3)][1]]] + t[j + 1:]                # replace by a close bracket
+    return t[:40]
+
 class C10(GProp):
     id = 'C10'
     supervise = 4.0
@@ -76,23 +96,7 @@ class C10(GProp):
         # same-kind runs, tokens in front of the first open bracket and behind the partner: the partner is found by balanced
         # nesting across ALL kinds, the run-length bookkeeping of same-kind runs is exercised, and the inner parser stops early
         for i in range(500 if tier == 'quick' else 8000):
-            def nest(d):
-                if d <= 0 or r.chance(1, 5):
-                    return [r.choice(['a', 'a', 'comma', 'sp'])] * r.below(3)
-                k = r.below(3)
-                run = 1 + (r.below(4) if r.chance(1, 3) else 0)       # k k k ... of the same kind
-                body = nest(d - 1)
-                for _ in range(r.below(2)):
-                    body = body + nest(d - 1)
-                return [SYMS[PAIRS[k][0]]] * run + body + [SYMS[PAIRS[k][1]]] * run
-            t = r.choice([[], ['a'], ['sp'], ['b', 'sp']]) + nest(3 + r.below(5)) + r.choice([[], ['a'], ['sp', 'a'], ['comma']]) + (nest(2) if r.chance(1, 3) else [])
-            if r.chance(1, 3) and t:
-                j = r.below(len(t))
-                c = r.below(3)
-                if c == 0: t = t[:j] + t[j + 1:]                                         # drop one token (often a bracket)
-                elif c == 1: t = t[:j] + [SYMS[PAIRS[r.below(3)][r.below(2)]]] + t[j:]    # insert a stray bracket
-                else: t = t[:j] + [SYMS[PAIRS[r.below(3)][1]]] + t[j + 1:]                # replace by a close bracket
-            t = t[:40]
+            t = gen_nested_text(r)
             kinds = r.choice([[0, 1, 2], [0, 1, 2], [2, 1, 0], [0, 1], [1, 2], [0, 2]])
             add(t, kinds, r.choice([[], [], ['Comma'], ['B']]), r.choice(VARIANTS),
                 r.choice(inners + [['repeat', 0, 'inf', ['any', 'A', 'Comma', 'LP', 'LK', 'LC', 'RP', 'RK', 'RC']], ['repeat', 0, 2, ['any', 'A', 'LP', 'LK', 'LC']]]), r.below(2))
